@@ -8,8 +8,10 @@ ENTRY = dict(
          "UConn.Read with random buffer sizes, TLS 1.3 KeyUpdates in between; Go-side oracle: bytes equal, no error; one case per "
          "session: type, version, length, explicit nonce of every record the client wrote vs the model. TLS 1.3 additionally against "
          "the uTLS server (it has the hooks): histories of 8 (thorough 24) key updates alternating peer/client, random "
-         "update_requested, data both ways after each; zero-length application data records interleaved with data (> 40 in total, "
-         "runs up to 24). Tampering on live sessions: bit flip in body / first header / dropped byte (3 per pair, thorough 12), TLS "
+         "update_requested, data both ways after each; and against crypto/tls (a peer with its OWN key schedule): 5 (thorough 12) "
+         "client KeyUpdates, mostly update_requested so that the server ratchets its sending secret itself, data both ways under "
+         "every generation; zero-length application data records interleaved with data in three shapes (random runs up to 24, > 40 "
+         "in total; one empty record before EACH of ~55 data records; pairs), read by UConn.Read. Tampering on live sessions: bit flip in body / first header / dropped byte (3 per pair, thorough 12), TLS "
          "1.3 record truncated to 0,1,15..18,40 bytes (thorough 0..63). Record level on forged connections (fresh receiver per "
          "experiment, UConn.Read, panic = failure) for EVERY suite of the table incl. the weak CBC suites x versions 1.0-1.2: the first "
          "record truncated to every shorter length (header adjusted), the stream cut at every offset, one bit flipped at every byte; "
